@@ -78,6 +78,7 @@ func init() {
 			g(rep, "FILE-END-AGREE", func() { ruleFILEENDAGREE(p, rep) })
 			g(rep, "DEFERFREE", func() { ruleDEFERFREE(p, rep) })
 			g(rep, "ALLOC-RECORDED", func() { ruleALLOCRECORDED(p, rep) })
+			g(rep, "ALLOC-UNDOABLE", func() { ruleALLOCUNDOABLE(p, rep) })
 			g(rep, "INV-FL", func() { ruleINVFL(p, rep) })
 			g(rep, "PAGE-BOUNDS", func() { rulePAGEBOUNDS(p, rep) })
 			g(rep, "WAL-RELEASE-ON-FREE", func() { ruleWALRELEASEONFREE(p, rep) })
@@ -95,6 +96,7 @@ func init() {
 			g(rep, "KEEPWRITEPAGE", func() { ruleKEEPWRITEPAGE(p, rep) })
 			g(rep, "POSITION-COHERENT", func() { rulePOSITIONCOHERENT(p, rep) })
 			g(rep, "TAIL-OFFSET", func() { ruleTAILOFFSET(p, rep) })
+			g(rep, "WAL-RELEASE-ON-FREE", func() { ruleWALRELEASEONFREE(p, rep) })
 			g(rep, "TX-PAIRING", func() { ruleTXPAIRING(p, rep) })
 			g(rep, "ERRDISC", func() { ruleERRDISC(p, rep, "pq", false) })
 			g(rep, "ORDER", func() { ruleORDER(p, rep, orderSet("ORDER", "SLOT")) })
@@ -108,6 +110,7 @@ func init() {
 		run: func(p *Program, rep *Report, tier string) {
 			g(rep, "ORDER", func() { ruleORDER(p, rep, orderSet("ROLLBACK-ON-EVERY-FAILURE", "COMMITPOINT")) })
 			g(rep, "UNDO-JOURNAL", func() { ruleUNDOJOURNAL(p, rep) })
+			g(rep, "ALLOC-UNDOABLE", func() { ruleALLOCUNDOABLE(p, rep) })
 			g(rep, "INV-FL", func() { ruleINVFL(p, rep) })
 			g(rep, "DEFERFREE", func() { ruleDEFERFREE(p, rep) })
 			g(rep, "PRECOMMIT-NO-ALIAS", func() { rulePRECOMMITNOALIAS(p, rep) })
@@ -166,6 +169,7 @@ func init() {
 			g(rep, "CAPACITY", func() { ruleCAPACITY(p, rep) })
 			g(rep, "DEFERFREE", func() { ruleDEFERFREE(p, rep) })
 			g(rep, "UNDO-JOURNAL", func() { ruleUNDOJOURNAL(p, rep) })
+			g(rep, "ALLOC-UNDOABLE", func() { ruleALLOCUNDOABLE(p, rep) })
 			g(rep, "INV-FL", func() { ruleINVFL(p, rep) })
 		},
 	})
@@ -179,6 +183,7 @@ func init() {
 			g(rep, "ACK-SCAN-FROM-HEAD", func() { ruleACKSCANFROMHEAD(p, rep) })
 			g(rep, "PQTX", func() { rulePQTX(p, rep) })
 			g(rep, "CLEANUP-MAY-OVERFLOW", func() { ruleCLEANUPMAYOVERFLOW(p, rep) })
+			g(rep, "EVENT-BOUNDARY", func() { ruleEVENTBOUNDARY(p, rep) })
 			g(rep, "ERRDISC", func() { ruleERRDISC(p, rep, "pq", false) })
 		},
 	})
@@ -191,6 +196,7 @@ func init() {
 			g(rep, "TX-PAIRING", func() { ruleTXPAIRING(p, rep) })
 			g(rep, "KEEPWRITEPAGE", func() { ruleKEEPWRITEPAGE(p, rep) })
 			g(rep, "CONFINEMENT", func() { ruleCONFINEMENT(p, rep) })
+			g(rep, "EVENT-BOUNDARY", func() { ruleEVENTBOUNDARY(p, rep) })
 			g(rep, "LOCKS", func() {
 				ruleLOCKS(p, rep, func(r lockRoot) bool {
 					return strings.HasPrefix(r.name, "File.Begin") || strings.HasPrefix(r.name, "Tx.Commit[tx(") || strings.HasPrefix(r.name, "Tx.Close[tx(")
@@ -245,6 +251,7 @@ func init() {
 			g(rep, "COUNTER-SOURCES", func() { ruleCOUNTERSOURCES(p, rep) })
 			g(rep, "PQTX", func() { rulePQTX(p, rep) })
 			g(rep, "CALLBACK-ARG", func() { ruleCALLBACKARG(p, rep) })
+			g(rep, "EVENT-BOUNDARY", func() { ruleEVENTBOUNDARY(p, rep) })
 		},
 	})
 	register(&propertyDef{
